@@ -27,6 +27,9 @@ pub enum Mut {
     WrapLen(u16, u8, u8),
     /// prepend this many zeros / digits to the nearest digit run
     PadDigits(u16, u8, u8),
+    /// the nearest ASCII letter at or after the position changes case (`i` -> `I`, `e` -> `E`, ...): a look-alike of a
+    /// structural byte that a sloppy classification would accept
+    CaseFlip(u16),
 }
 
 #[derive(Clone, Debug, Serialize, Deserialize)]
@@ -97,6 +100,14 @@ pub fn apply_muts(doc: &mut Vec<u8>, muts: &[Mut]) {
                     }
                 }
             }
+            Mut::CaseFlip(i) => {
+                if !doc.is_empty() {
+                    let k = idx(*i, doc.len());
+                    if let Some(p) = (k..doc.len()).find(|p| doc[*p].is_ascii_alphabetic()) {
+                        doc[p] ^= 0x20;
+                    }
+                }
+            }
             Mut::Digit(i, d) => {
                 if !doc.is_empty() {
                     // nearest digit at or after the position
@@ -112,8 +123,9 @@ pub fn apply_muts(doc: &mut Vec<u8>, muts: &[Mut]) {
 
 fn delim_byte() -> BoxedStrategy<u8> {
     prop_oneof![
-        4 => prop::sample::select(b":eild-0123456789".to_vec()),
-        1 => any::<u8>(),
+        8 => prop::sample::select(b":eild-0123456789".to_vec()),
+        1 => prop::sample::select(b"EILD+ \n\t".to_vec()),
+        2 => any::<u8>(),
     ]
     .boxed()
 }
@@ -128,6 +140,7 @@ fn mut_strategy() -> BoxedStrategy<Mut> {
         2 => (any::<u16>(), 0u8..10).prop_map(|(i, d)| Mut::Digit(i, d)),
         1 => (any::<u16>(), any::<u8>(), any::<u8>()).prop_map(|(i, m, k)| Mut::WrapLen(i, m, k)),
         1 => (any::<u16>(), any::<u8>(), 0u8..10).prop_map(|(i, n, d)| Mut::PadDigits(i, n, d)),
+        2 => any::<u16>().prop_map(Mut::CaseFlip),
     ]
     .boxed()
 }
